@@ -264,7 +264,7 @@ func c02RichPrograms(alpha []c02RuleVar) [][]int {
 func init() {
 	alpha := c02RuleAlphabet()
 	n := len(alpha)
-	fw.Register(&fw.Prop{
+	fw.Register(addTok(tokFramesC02, &fw.Prop{
 		ID: "C02",
 		Rule: "rule sequences over 29 rule variants (BEGIN/END/BEGINFILE/ENDFILE with nothing, exit or next; pattern-less, true, false and $>1 pattern rules with nothing, next or exit; next / exit raised in a callee inside a print list or an array literal; a body-less pattern rule, a rule that mutates $), every body printing its rule number, $, $file (and $index when every root is an array); " +
 			"(A) all sequences of <= N rules on three rich configurations, (B) 16 fixed rich programs on all 915 configurations (0-2 files x 13 file contents incl. empty, two values and all root shapes x 5 selector lists), (C) all sequences of <= M rules on all configurations; " +
@@ -341,5 +341,5 @@ func init() {
 			}
 			return c02Check(c, s)
 		},
-	})
+	}))
 }
